@@ -46,7 +46,7 @@ def plan(tier, seed):
 def conclude(agg):
     c = agg['counters']
     r = []
-    for k in ('roundtrip_bp', 'mvarray_strings', 'mv_str_roundtrip', 'pack_roundtrip', 'popcount', 'alias_entries', 'padding_lanes_checked', 'popcount_large_arrays', 'result_mutated_then_repeated', 'interpret_result_edited'):
+    for k in ('roundtrip_bp', 'mvarray_strings', 'mv_str_roundtrip', 'pack_roundtrip', 'popcount', 'alias_entries', 'padding_lanes_checked', 'popcount_large_arrays', 'result_mutated_then_repeated', 'interpret_result_edited', 'large_pattern_counts'):
         if c.get(k, 0) == 0:
             r.append(f'monitor counter {k} is zero')
     if len(agg['sets'].get('dtypes', ())) < 8:
@@ -93,7 +93,10 @@ def one(ctx, rng, nrng):
     if kind == 'bp':
         rank = rng.choice([1, 2, 2, 2, 3, 4])
         pats = rng.choice([1, 2, 3, 7, 8, 9, 15, 16, 17, 31, 33, 63, 64, 65, 70, rng.randint(1, 70)])
-        shape = tuple(rng.randint(1, 6) for _ in range(rank - 1)) + (pats,)
+        if rng.random() < 0.04:
+            pats = rng.choice([257, 1025, 65537, 70001])      # far more patterns (or, rank 1, signals) than any byte / word / 64k block boundary
+            ctx.count('large_pattern_counts')
+        shape = tuple(rng.randint(1, 6 if pats < 1000 else 2) for _ in range(rank - 1)) + (pats,)
         a = nrng.integers(0, 8, size=shape, dtype=np.uint8)
         case = {'rngkey': getattr(rng, 'key', None), 'kind': 'bp', 'shape': list(shape), 'a': a.tolist()}
         with ctx.guard('bp-roundtrip', case):
